@@ -1,4 +1,6 @@
 import RsMatterVerif.Model.Pase
+import RsMatterVerif.Model.PaseFs
+import RsMatterVerif.Model.PaseInit
 import Driver.Util
 /-! Driver for C02: replays the harness' scripts (window operations - basic and enhanced -, virtual
 time, PASE initiators played message by message against the real responder, duplicated / re-sent
@@ -50,7 +52,11 @@ structure Spec where
   lingering : Bool := false
 
 structure St where
+  /-- `init` case: the real initiator against the real responder, messages modified in flight -/
+  initMode : Bool := false
   m : Pase.St := {}
+  /-- the fail-safe (`Model/PaseFs.lean`): the instant it expires when armed -/
+  fs : Option Nat := none
   devPw : Nat := 0
   /-- a handshake message is mutated in flight: the case is judged by the oracle only -/
   tamper : Bool := false
@@ -79,7 +85,7 @@ def tabOf (s : Pase.St) : String :=
 def paseCount (s : Pase.St) : Nat :=
   (s.table.filter (fun sl => match sl with | .pase _ => true | _ => false)).length
 
-def obsOf (s : Pase.St) : String :=
+def obsOf (s : Pase.St) (fs : Option Nat := none) : String :=
   let w := if s.window.isSome then "1" else "0"
   let f := match s.window with | some x => toString x.failures | none => "-"
   let mk := if s.marker.isSome then "1" else "0"
@@ -88,7 +94,7 @@ def obsOf (s : Pase.St) : String :=
     | some (d, true) => ("1", toString d)
     | some (_, false) => ("0", "-")
     | none => ("-", "-")
-  s!"w={w} f={f} m={mk} s={paseCount s} adv={adv} {tabOf s} enh={enh} disc={disc}"
+  s!"w={w} f={f} m={mk} s={paseCount s} adv={adv} {tabOf s} enh={enh} disc={disc} fs={if fs.isSome then 1 else 0}"
 
 def replyOf : Out → String
   | .none => "silent"
@@ -136,12 +142,64 @@ def victimOf (ev : String) : Option VClass :=
   | some "P" => some .pase
   | _ => none
 
+/-- what reached the initiator, as a message of `Model/PaseInit.lean`. The honest responder's values: request,
+response, shares and salt / iteration count have identity 1; its `cB` is computed from ITS view (`rv`). -/
+def initMsg (rv : PaseInit.RespView) (tok : String) : PaseInit.Msg :=
+  let good : PaseInit.Resp := { payload := 1, random := 1, hasParams := true, salt := 1, saltLen := 32, iterations := 1 }
+  match tok.splitOn ":" with
+  | ["21", "same"] => .resp good
+  | ["21", "field"] => .resp { good with payload := 2 }
+  | ["21", "rnd"] => .resp { good with payload := 2, random := 2 }
+  | ["21", "noparams"] => .resp { good with payload := 2, hasParams := false }
+  | ["21", "saltlen"] => .resp { good with payload := 2, saltLen := 15 }
+  | ["21", _] => .respMalformed
+  | ["23", "same"] => .pake2 1 rv.cb
+  | ["23", "field"] => .pake2 2 rv.cb
+  | ["23", _] => .pake2Malformed
+  | ["40", "same"] => .status true
+  | ["40", "parse"] => .statusMalformed
+  | ["40", _] => .status false
+  | _ => .otherOpcode
+
+/-- one `hs` of an `init` case: the model's verdict and the specification on the implementation's answer -/
+def initStep (devPw : Nat) (m o' : KV) : String :=
+  let ipw := m.num "ipw"
+  let rxs := ((o'.get "rx").getD "-").splitOn "," |>.filter (fun t => t != "-" && t != "")
+  let rv : PaseInit.RespView := { vR := { passcode := devPw, salt := 1, iterations := 1 }, reqSeen := 1, respSent := 1, pASeen := 1, pB := 1 }
+  let s0 : PaseInit.St := { passcode := ipw, rnd := 1, req := 1, pA := 1 }
+  let (sN, sent, notify) := rxs.foldl (fun (acc : PaseInit.St × Nat × Bool) tok =>
+    let r := PaseInit.step acc.1 (initMsg rv tok)
+    let sent := match r.2 with | .sendPake1 | .sendPake3 => acc.2.1 + 1 | _ => acc.2.1
+    let notify := match r.2 with | .fail true => true | _ => acc.2.2
+    (r.1, sent, notify)) (s0, 1, false)
+  let est := match sN.stage with | .established _ => true | _ => false
+  let implOk := (o'.get "res") = some "ok"
+  let implSess := o'.num "isess"
+  let untouched := rxs = ["21:same", "23:same", "40:same"]
+  -- the property, on the implementation's answer alone: a session on the initiator's side only with the right
+  -- passcode and with PBKDFParamResponse, Pake2 and the success report exactly as the responder sent them
+  if implSess > 0 && ipw ≠ devPw then "ORA the initiator completed a session with a passcode the responder's window does not have"
+  else if implSess > 0 && !untouched then "ORA the initiator completed a session although a message of the responder was modified / replaced in flight"
+  else if implOk && implSess = 0 then "ORA the initiator reported success without a session"
+  else if o'.num "dsess" > 0 && ipw ≠ devPw then "ORA a session on the device for an initiator with a wrong passcode"
+  else
+    let mo := s!"res={if est then "ok" else "err"} sent={sent} isess={if est then 1 else 0}"
+    let io := s!"res={if implOk then "ok" else "err"} sent={o'.num "sent"} isess={implSess}"
+    -- (the status report the initiator sends when it gives up is compared when it received something to give up on)
+    let mo := if rxs.isEmpty then mo else s!"{mo} notify={if notify then 1 else 0}"
+    let io := if rxs.isEmpty then io else s!"{io} notify={o'.num "notify"}"
+    if mo = io then "ok" else s!"DIS {mo}"
+
 def step (st : St) (line : String) : St × String :=
   let (op, out) := splitArrow line
   match words op with
+  | "case" :: _ :: "init" :: rest => ({ devPw := (kvOf rest).num "pw", initMode := true }, "case")
   | "case" :: _ :: rest => ({ devPw := (kvOf rest).num "pw", tamper := ((kvOf rest).get "tamper").isSome }, "case")
   | head :: rest =>
     let m := kvOf rest
+    if st.initMode then
+      (st, if head = "hs" then initStep st.devPw m (kvOf (words out)) else "ok")
+    else
     -- impl answer: `t=<ms> <reply> | <observation>`
     let (lhs, obs) := match out.splitOn " | " with
       | [a, b] => (a, b)
@@ -171,7 +229,7 @@ def step (st : St) (line : String) : St × String :=
     let setIni (st : St) (i : Ini) : St := { st with inis := i :: st.inis.filter (·.k ≠ i.k) }
     let victim := victimOf ((o'.get "ev").getD "-")
     -- the model event(s)
-    let (mev, st) : Option Ev × St :=
+    let (mev0, st) : Option Ev × St :=
       match head with
       | "open" => (some (.op (.openWin (st.devPw * 1000 + st.opens + 1) (m.num "t"))), st)
       | "openenh" =>
@@ -233,6 +291,10 @@ def step (st : St) (line : String) : St × String :=
         | some (_, c, o) => (some (.msg c o), st)
         | none => (none, st)
       | _ => (none, st)
+    let mev : Option FEv := match head with
+      | "cmdrevoke" => some .cmdRevoke
+      | "fspoll" => some .fsPoll
+      | _ => mev0.map .ev
     if head = "rxto" then
       let want := s!"rxto={rxTimeoutMs { active := m.num "pa", idle := m.num "pi", thresh := m.num "pt" } (m.num "la")}"
       if reply = want then (st, "ok") else (st, s!"DIS {want}")
@@ -240,9 +302,11 @@ def step (st : St) (line : String) : St × String :=
     match mev with
     | none => (st, "BAD op")
     | some mev =>
-      let (m1, o) := Pase.stepEv st.m mev
-      -- the network delivered the datagram twice
-      let m1 := if m.get "dup" = some "1" then (Pase.stepEv m1 mev).1 else m1
+      let (f1, o) := Pase.stepF { st := st.m, fs := st.fs } mev
+      -- the network delivered the datagram twice; or the answer was lost and the initiator's MRP retransmission
+      -- of the request reached the device as well
+      let f1 := if m.get "dup" = some "1" || m.get "rdrop" = some "1" then (Pase.stepF f1 mev).1 else f1
+      let m1 := f1.st
       -- handshakes whose peer stays silent throughout a long `tick` die inside it
       let reaped : Option Pase.St :=
         if head = "tick" then reap m1 (now + m.num "ms") else some m1
@@ -256,7 +320,7 @@ def step (st : St) (line : String) : St × String :=
         | .pake2 pB => setIni st { (st.inis.find? (fun (i : Ini) => i.k = k)).getD { k := k } with pB := some pB }
         | _ => st
       -- the op itself takes (virtual) time: the observation is made after it
-      let st := { st with m := m' }
+      let st := { st with m := m', fs := f1.fs }
       -- ---------------- specification on the implementation's observation ----------------
       let implW := o'.get "w" = some "1"
       let implS := o'.num "s"
@@ -270,7 +334,7 @@ def step (st : St) (line : String) : St × String :=
           if reply = "ok" then { sp with win := some (st.devPw, now + m.num "t" * 1000, 0), lingering := false } else sp
         | "openenh" | "cmdopen" =>
           if reply = "ok" then { sp with win := some (m.num "pw", now + m.num "t" * 1000, 0), lingering := false } else sp
-        | "revoke" => { sp with win := none }
+        | "revoke" | "cmdrevoke" => { sp with win := none }
         | _ => sp
       -- (1) a session appears only at a Pake3 with the passcode of the open window's verifier, an unmodified /
       --     unreplayed confirmation, not at a re-sent datagram, while the window is open (present and unexpired)
@@ -338,12 +402,12 @@ def step (st : St) (line : String) : St × String :=
             | some w => s!"pbkdfresp it={w.iterations} sl={w.saltLen} rxto={rx}"
             | none => "pbkdfresp"
           | _ => replyOf o
-        let mo := s!"{ro} | {obsOf m'}"
+        let mo := s!"{ro} | {obsOf m' f1.fs}"
         -- the classes of the evicted sessions are an input (they choose the model's victim), not compared
         let io := s!"{reply} | {" ".intercalate ((words obs).filter (fun w => !(w.startsWith "ev=") && !(w.startsWith "hit=")))}"
         -- `tick` / `poll` / `abort` print `-` as reply
-        let mo := if head = "tick" || head = "poll" || head = "abort" then s!"- | {obsOf m'}" else mo
-        let mo := if head = "revoke" then s!"ok | {obsOf m'}" else mo
+        let mo := if head = "tick" || head = "poll" || head = "abort" || head = "fspoll" then s!"- | {obsOf m' f1.fs}" else mo
+        let mo := if head = "revoke" then s!"ok | {obsOf m' f1.fs}" else mo
         if mo = io then (st, "ok") else (st, s!"DIS {mo}")
   | _ => (st, "BAD line")
 
